@@ -74,6 +74,13 @@ CLAIMED = {
             'the clauses are tagged; named/hidden splitting uses the scoped TermNames registry and the current assertion view; pop invalidates popped partitions. '
             'Necessary structural clauses; unsatisfiability of the reported set is not decided. One known finding (index of a duplicated assertion after pop).',
             'static analysis: MUST-CALL path walk, container-protocol and exhaustiveness rules over the type-checked AST (LibTooling facts)', ''),
+    'C22': ('other',
+            'Static, all-paths protocol rules over the built theory solvers (Egraph, LASolver, STPSolver<T>, ArraySolver) and the handlers: exact push/pop counts of '
+            'backtrack points through every override and the base class, agreement of the skip filters of THandler::assertLits and ::backtrack, push before the '
+            'isInformed filter, every e-graph undo-record kind has an undo action, bound activation counted on exactly the paths whose decision is later un-counted, '
+            'setPolarity/clearPolarity pairing per class, clearSolver coverage against the reference tree, getReasonFor bracket. Necessary conditions for '
+            '"retracted literals leave no trace"; that each undo action restores the right content is not decided.',
+            'static analysis: path-sensitive call-count / MUST-CALL walk, guard-set comparison and exhaustiveness rules over the structured mini-AST', ''),
 }
 
 NOT_APPLICABLE = {
